@@ -56,6 +56,11 @@ pub struct Sc {
     /// give the targets documents names such as "data" and "data 2" (prefix-ordered keys)
     pub tricky_target_names: bool,
     pub mutation: Mutation,
+    /// the publisher spells key identifiers in upper-case hex where they are member names (the
+    /// `keys` tables of both roots and of the delegations): same identifiers, another spelling, and
+    /// the signatures are over that spelling
+    #[serde(default)]
+    pub upper_keyids: bool,
 }
 
 pub struct C12;
@@ -267,6 +272,18 @@ fn dedupe(j: &J, keep_first: bool) -> J {
     }
 }
 
+fn upper_key_tables(signed: &mut J) {
+    let up = |t: Option<&mut J>| {
+        if let Some(J::Obj(m)) = t {
+            for (k, _) in m.iter_mut() {
+                *k = k.to_uppercase();
+            }
+        }
+    };
+    up(signed.get_mut("keys"));
+    up(signed.get_mut("delegations").and_then(|d| d.get_mut("keys")));
+}
+
 struct World {
     shipped: Vec<u8>,
     /// file name -> bytes (already mutated where applicable)
@@ -278,7 +295,8 @@ struct World {
 }
 
 fn extra_value(i: usize) -> J {
-    match i % 5 {
+    match i % 6 {
+        5 => s("two lines\nand a tab\t, a control \u{1}, a quote \" and a backslash \\"),
         0 => s("extra value"),
         1 => n(42),
         2 => obj(vec![("nested", J::Arr(vec![n(1), s("two"), J::Null])), ("b", J::Bool(true))]),
@@ -313,6 +331,12 @@ fn build(sc: &Sc) -> World {
     let delegs = [DelegSpec { name: "d1".into(), keys: RoleKeys::one(&k_d), paths: Paths::Globs(vec!["d/*".into()]), terminating: false }];
     let mut signed_tg = targets_signed(1, FAR, &[e1, e2], Some(&delegs));
     let mut signed_r2 = mk_root(2).signed();
+    let mut signed_r1 = mk_root(1).signed();
+    if sc.upper_keyids {
+        upper_key_tables(&mut signed_r1);
+        upper_key_tables(&mut signed_r2);
+        upper_key_tables(&mut signed_tg);
+    }
     // version-only pins: signature verification must be the only defence against tampering
     let mut signed_snap = snapshot_signed(
         1,
@@ -450,7 +474,7 @@ fn build(sc: &Sc) -> World {
 
     // ---- the rest of the repository (clean), signed over final bytes where pins exist (none do)
     let mut files = std::collections::HashMap::new();
-    let r1 = Doc::signed_by(mk_root(1).signed(), &[k_root.clone()]);
+    let r1 = Doc::signed_by(signed_r1, &[k_root.clone()]);
     let shipped = r1.bytes();
     let clean = |signed: &J, k: &keys::K| Doc::signed_by(signed.clone(), &[k.clone()]).bytes();
     let c = sc.consistent;
@@ -485,7 +509,7 @@ fn build(sc: &Sc) -> World {
     World { shipped, files, original_signed, mutated_signed: mutated, level_class, applied }
 }
 
-const ATTEMPTS: usize = 10;
+const ATTEMPTS: usize = 6;
 
 impl C12 {
     fn load_once(&self, w: &World, transport: &SimTransport, role: RoleT) -> Result<(u64, Value), (Class, String)> {
@@ -518,7 +542,7 @@ impl Check for C12 {
         "C12"
     }
     fn rule(&self) -> String {
-        "a validly signed foreign document of one role type (root, timestamp, snapshot, targets, delegated targets) carrying 0..3 unknown members at one struct-like object level (names incl. space, '!', quote, backslash, non-ASCII, prefix pairs) and optionally prefix-ordered target names; exactly one in-flight change: none, member re-ordering, whitespace, junk signature, scalar change / member insert / delete / duplicate at any position, insertion of a sibling member whose name differs from an existing one only by a backslash or quote (member-adding mutations are loaded 10 times, other content-changing ones 3 times, worst attempt judged, because the client's maps are randomly seeded), _type rewrite, timestamp<->snapshot swap under a shared key; pins are version-only so signatures are the only defence; non-trivial = a mutation was applied to a document the client fetched, or unknown members were present; distinct = distinct canonical trace".into()
+        "a validly signed foreign document of one role type (root, timestamp, snapshot, targets, delegated targets) carrying 0..3 unknown members (values incl. strings with control characters) at one struct-like object level (names incl. space, '!', quote, backslash, non-ASCII, prefix pairs) and optionally prefix-ordered target names, optionally key identifiers spelt in upper-case hex in the key tables; exactly one in-flight change: none, member re-ordering, whitespace, junk signature, scalar change / member insert / delete / duplicate at any position, insertion of a sibling member whose name differs from an existing one only by a backslash or quote (member-adding mutations are loaded 6 times, other content-changing ones twice, worst attempt judged, because the client's maps are randomly seeded), _type rewrite, timestamp<->snapshot swap under a shared key; pins are version-only so signatures are the only defence; non-trivial = a mutation was applied to a document the client fetched, or unknown members were present; distinct = distinct canonical trace".into()
     }
     fn assumptions(&self) -> Vec<String> {
         vec![
@@ -568,7 +592,7 @@ impl Check for C12 {
             _ => Mutation::InsertConfusable { member: r.usize_below(4096), variant: r.below(5) as u8, front: r.chance(1, 2) },
         };
         let role = if mutation == Mutation::RoleSwap { *r.pick(&[RoleT::Timestamp, RoleT::Snapshot]) } else { role };
-        Sc { world: r.below(1_000_003), consistent: r.chance(1, 2), role, extra_level, extra_names, tricky_target_names: r.chance(1, 6), mutation }
+        Sc { world: r.below(1_000_003), consistent: r.chance(1, 2), role, extra_level, extra_names, tricky_target_names: r.chance(1, 6), mutation, upper_keyids: r.chance(1, 8) }
     }
     fn shrink(&self, sc: &Sc) -> Vec<Sc> {
         let mut v = Vec::new();
@@ -577,6 +601,9 @@ impl Check for C12 {
         }
         if sc.tricky_target_names {
             v.push(Sc { tricky_target_names: false, ..sc.clone() });
+        }
+        if sc.upper_keyids {
+            v.push(Sc { upper_keyids: false, ..sc.clone() });
         }
         if sc.extra_level.is_some() {
             v.push(Sc { extra_level: None, extra_names: vec![], ..sc.clone() });
@@ -606,10 +633,13 @@ impl Check for C12 {
         let w = build(sc);
         // the targets and delegated documents are part of every world, so their names matter
         // whatever the role under test is
-        let ncls = name_class(if sc.extra_level.is_some() { &sc.extra_names } else { &[] }, sc.tricky_target_names);
+        // unknown members inside delegations are refused whatever else the document looks like
+        // (known finding F8): keep that class of refusals under its own keys
+        let f8_level = matches!(w.level_class, "delegations" | "delegated-role-entry");
+        let ncls = if sc.upper_keyids && !f8_level { "upper-case-key-ids" } else { name_class(if sc.extra_level.is_some() { &sc.extra_names } else { &[] }, sc.tricky_target_names) };
         o.ev(format!(
-            "cfg role={:?} consistent={} level={:?}/{} names={:?} tricky={} mutation={:?} applied={}",
-            sc.role, sc.consistent, sc.extra_level, w.level_class, sc.extra_names, sc.tricky_target_names, sc.mutation, w.applied
+            "cfg role={:?} consistent={} upper_keyids={} level={:?}/{} names={:?} tricky={} mutation={:?} applied={}",
+            sc.role, sc.consistent, sc.upper_keyids, sc.extra_level, w.level_class, sc.extra_names, sc.tricky_target_names, sc.mutation, w.applied
         ));
         let files = w.files.clone();
         let transport = SimTransport::new(move |r| {
@@ -629,7 +659,7 @@ impl Check for C12 {
             Mutation::None | Mutation::Reorder | Mutation::Whitespace | Mutation::JunkSignature | Mutation::RoleSwap => 1,
             // mutations that add a member are the ones whose fate can hinge on map iteration order
             Mutation::Insert(_) | Mutation::InsertConfusable { .. } | Mutation::Duplicate { .. } => ATTEMPTS,
-            _ => 3,
+            _ => 2,
         };
         let mut res = self.load_once(&w, &transport, role);
         for _ in 1..attempts {
